@@ -230,6 +230,11 @@ def fcnHeap : Nat → String → Option Val :=
 
 def fcnSt : St := { heap := fcnHeap, calls := [] }
 
+/-- the same agent in normal-margin mode (`margin_type = MARGIN_NORMAL`) -/
+def fcnStNormal : St :=
+  { heap := fun addr => if addr = 1 then (fun f => if f = "margin_type" then some (.int (.lit 1)) else fcnAgent f)
+      else fcnHeap addr, calls := [] }
+
 /-- accessibility = bool atom 1; the market's clock = int atom 1, fundamental price = num atom 10, price
 now = 11, price at the start of the window = 12; the Gaussian draw = 13; every intermediate value is
 finite (`is_finite` answers `True`) -/
@@ -237,7 +242,7 @@ def fcnExt : Ext := fun st recv fn args =>
   match recv, fn, args with
   | .ref 1, "is_market_accessible", [_] => some (.bool (.atom 1), st)
   | .ref 1, "is_finite", [_] => some (.bool (.lit true), st)
-  | .ref 2, "gauss", _ => some (.num (.atom 13), st)
+  | .ref 2, "gauss", _ => some (.num (.atom (13 + (st.calls.filter (fun c => c.fn == "gauss")).length)), st)
   | .ref 5, "get_time", [] => some (.int (.atom 1), st)
   | .ref 5, "get_fundamental_price", [] => some (.num (.atom 10), st)
   | .ref 5, "get_market_price", [] => some (.num (.atom 11), st)
@@ -252,6 +257,9 @@ def fcnEnv : Env :=
 def fcnPaths := obsPathsPG ordersObs fcnEnv FUEL "FCNAgent.submit_orders_by_market" [.ref 1, .ref 5] fcnSt
 
 theorem fcnPaths_eq : fcnPaths = evalnf% fcnPaths := by kernel_rfl
+
+def fcnPathsNormal := obsPathsPG ordersObs fcnEnv FUEL "FCNAgent.submit_orders_by_market" [.ref 1, .ref 5] fcnStNormal
+theorem fcnPathsNormal_eq : fcnPathsNormal = evalnf% fcnPathsNormal := by kernel_rfl
 
 end Pams.Src
 
